@@ -367,7 +367,15 @@ def stepper_on_implementations(seed, n_games):
             built += 1
             stp = steps.AutomatonStepper(aut)
             impl = aut.action['impl']
+            init_impl = aut.init['impl']
             allv = list(de) + list(ds) + ['_goal']
+            if g % 2:
+                # the stepper keeps the implementation it was BUILT from: another
+                # implementation put into the same automaton later does not change it
+                aut.action['impl'] = aut.add_expr(' /\\ '.join(
+                    (f"({v}' <=> ~ {v})" if aut.vars[v]['type'] == 'bool' else f"({v}' = {aut.vars[v]['dom'][0]})")
+                    for v in list(ds) + ['_goal']))
+                aut.init['impl'] = aut.false
             shared = dict()       # ONE dict object, updated in place between calls
             den_ = denote.Den(aut.vars, lambda b: None)
 
@@ -408,15 +416,24 @@ def stepper_on_implementations(seed, n_games):
                     except ValueError:
                         if enabled and len(fails) < 5:
                             fails.append(dict(name='stepper returns values whenever the action is enabled', state=str(state)))
-            i0 = stp.init()
+                    except Exception as e:
+                        if len(fails) < 5:
+                            fails.append(dict(name='stepper returns values, or signals a disabled action with ValueError (no other exception)',
+                                              state=str(state), error=repr(e)[:200]))
             n += 1
             try:
-                aut.let(i0, aut.init['impl'])
+                i0 = stp.init()
+            except Exception as e:
+                fails.append(dict(name='stepper initial values satisfy the initial condition', error=repr(e)[:200],
+                                  note='init() raised although the implementation it was built from has initial states'))
+                continue
+            try:
+                aut.let(i0, init_impl)
             except AssertionError:
                 fails.append(dict(name='stepper initial values satisfy the initial condition', init=str(i0), note='a value is not representable'))
                 continue
             if not set(i0) <= set(aut.varlist['impl']) or aut.exist(
-                    [v for v in allv if v not in i0], aut.let(i0, aut.init['impl'])) != aut.true:
+                    [v for v in allv if v not in i0], aut.let(i0, init_impl)) != aut.true:
                 fails.append(dict(name='stepper initial values satisfy the initial condition', init=str(i0)))
         return dict(records=[], stats=dict(), functions={}, bounded=dict(
             evaluations=n, implementations=built, failures=fails))
